@@ -22,7 +22,7 @@ def main():
     if args.replay:
         import json
         d = json.load(open(args.replay))
-        if d.get('kind') in ('implementation-raised', 'watchdog'):
+        if d.get('kind') in ('implementation-raised', 'watchdog', 'interface-changed'):
             # no input to re-run: re-run the whole check, which either aborts the same way again or gives its verdict
             print(d.get('what'), '\n', d.get('traceback', '')[-2000:])
             ctx = common.Ctx(pid, d.get('tier', 'quick'), int(d.get('seed', 0)))
@@ -76,6 +76,14 @@ def main():
             ctx.violation('implementation-raised', {'what': 'xdoctest raised %s where the check expects it to return; the harness could not continue' % type(e).__name__,
                           'traceback': tb[-6000:], 'theorem_or_correspondence': 'correspondence harness of %s (aborted by an exception raised in %s)' % (pid, files[-1][:200])},
                           False)
+            sys.exit(common.finish(ctx))
+        if isinstance(e, (AttributeError, ImportError, TypeError)) and 'xdoctest' in tb:
+            # the harness can no longer drive the implementation: an attribute, function or signature it uses (also private
+            # ones: _parts, failed_part, logged_stdout, ...) was renamed or removed.  The property may well still hold, but the
+            # correspondence cannot be evaluated any more.
+            print(tb[-3000:])
+            ctx.violation('interface-changed', {'what': 'the harness cannot drive xdoctest any more (%s: %s)' % (type(e).__name__, str(e)[:300]),
+                          'traceback': tb[-6000:], 'theorem_or_correspondence': 'correspondence harness of %s (interface it relies on changed)' % pid}, False)
             sys.exit(common.finish(ctx))
         # an internal error of the machinery is not a verdict: fail closed, loudly, without a VIOLATION line
         print(tb)
